@@ -46,6 +46,18 @@ func genC03() *rapid.Generator[Case] {
 			if c.Cfg.Mode != 2 && rapid.IntRange(0, 11).Draw(t, "merge") == 5 {
 				c.Steps = append(c.Steps, Step{K: "merge"})
 			}
+			if rapid.IntRange(0, 9).Draw(t, "wipe") == 6 {
+				// every key of the universe deleted in one transaction (the bucket's count of valid keys reaches 0),
+				// often followed by a Merge; later steps put the same keys again
+				wipe := Step{K: "tx"}
+				for _, k := range keys {
+					wipe.Ops = append(wipe.Ops, Op{K: "del", B: S(bucket), Key: S(k)})
+				}
+				c.Steps = append(c.Steps, wipe)
+				if c.Cfg.Mode != 2 && rapid.Bool().Draw(t, "wipemerge") {
+					c.Steps = append(c.Steps, Step{K: "merge"})
+				}
+			}
 		}
 		c.Extra = map[string]interface{}{"re": rapid.SampledFrom([]string{".*", "^a", "b$", "[ab]+", "^.$"}).Draw(t, "re")}
 		return c
